@@ -513,7 +513,7 @@ pub fn run(tier: Tier) -> Report {
     let all: Vec<usize> = (0..bases.len()).collect();
     let full = step_space(&all, &ALL_INV, &ALL_OMIT);
     let reduced = step_space(
-        &[0, 1, 5, 6, 7, 8, 9, 11, 15, 20],
+        &[0, 1, 5, 7, 8, 9, 11, 15, 20],
         &[InvForm::None, InvForm::Suffix, InvForm::Prefix],
         &[OmitForm::None, OmitForm::OmitFwd, OmitForm::Gt],
     );
